@@ -1,7 +1,7 @@
 (* Proofs/AssemblyP.v — lemmas about the assembly models (Model/Assembly.v,
    Model/Assembly14.v) backing property C09.  Unbounded in the number of
    shells, block shapes and transforms: inductions over lists. *)
-From Coq Require Import List Arith Lia Bool Permutation.
+From Coq Require Import List Arith Lia Bool Permutation Field.
 From GB Require Import Base.Field Base.Tables Base.Blocks Model.Assembly Model.Assembly14.
 Import ListNotations.
 
@@ -165,3 +165,41 @@ Proof.
   now rewrite (map_nth (fun t => dot azero aadd ascale t v)).
 Qed.
 End OneP.
+
+(* ------------------------------------------------------------------ *)
+(* Packaged hypotheses and the statements exported to Props/C09.v      *)
+(* ------------------------------------------------------------------ *)
+(* laws of the module of entries, relativised to the well-shaped entries P
+   (P = fun _ => True for scalars) *)
+Definition module_laws {F} (K : Fops F) {A} (azero : A) (aadd : A -> A -> A) (ascale : F -> A -> A)
+           (P : A -> Prop) : Prop :=
+  P azero /\ (forall x y, P x -> P y -> P (aadd x y)) /\ (forall t x, P x -> P (ascale t x)) /\
+  (forall x, P x -> aadd azero x = x) /\ (forall x, P x -> aadd x azero = x) /\
+  (forall x, P x -> ascale (f0 K) x = azero) /\ (forall x, P x -> ascale (f1 K) x = x).
+
+(* satisfiable: the scalars themselves, over any field *)
+Section MLF.
+Context {F : Type} (K : Fops F) (Kf : is_field K).
+Add Field KF_mlf : Kf.
+Lemma module_laws_field : module_laws K (f0 K) (fadd K) (fmul K) (fun _ => True).
+Proof. repeat split; auto; intros; ring. Qed.
+End MLF.
+
+Section Export1.
+Context {F : Type} (K : Fops F).
+Context {A : Type} (azero : A) (aadd : A -> A -> A) (ascale : F -> A -> A) (P : A -> Prop).
+Hypothesis ML : module_laws K azero aadd ascale P.
+
+Lemma one_mix_is_cart_transformed_L (l : list (@sh F * list (list A))) :
+  Forall (shell_ok ascale P) l ->
+  one_mix azero aadd ascale l = lin azero aadd ascale (Ubasis K ascale l) (one_cartesian ascale l).
+Proof. destruct ML as (H1 & H2 & H3 & H4 & H5 & H6 & H7). now apply (one_mix_is_cart_transformed K azero aadd ascale P). Qed.
+End Export1.
+
+(* an instance of the shape hypothesis: one spherical shell with a 1 x 2 transform *)
+Lemma shell_ok_example {F} (K : Fops F) (x y : F) :
+  Forall (shell_ok (fmul K) (fun _ => True))
+    [ (mkSh true [[f1 K; f1 K]] [[f1 K; f1 K]], [[x; y]]); (mkSh false [] [[f1 K]], [[x]]) ].
+Proof.
+  repeat constructor; cbn; try discriminate; intros _; repeat split; try discriminate; repeat constructor.
+Qed.
